@@ -58,6 +58,8 @@ def obs_cell(x) -> str:
         return "t" + x.isoformat(sep=" ")
     if isinstance(x, dt.date):
         return "d" + x.isoformat()
+    if isinstance(x, dt.time):
+        return "h" + x.isoformat()
     if isinstance(x, (bytes, bytearray)):
         return "b" + bytes(x).hex()
     return f"X:{type(x).__name__}:{x!r}"
@@ -444,6 +446,40 @@ def build(chk):
         cases.append({"tag": f"dateadd:{unit}:{mshape}", "task": task, "line": f"rewrite\tdateadd\t{unit}\t{mshape}", "x": x,
                       "judge": ("dateadd", unit, n, base)})
 
+    # ---- every rewritten function as the OPERAND of a cast to text / date / time, in all contexts ------------------------------
+    opc = [("to_timestamp(1700000000)::varchar", "TS:2023-11-14 22:13:20"), ("to_timestamp(1700000000)::string", "TS:2023-11-14 22:13:20"), ("cast(to_timestamp(1700000000) as varchar)", "TS:2023-11-14 22:13:20"),
+           ("to_timestamp(1700000000, 0)::varchar", "TS:2023-11-14 22:13:20"), ("to_timestamp(1700000000123, 3)::varchar", "TS:2023-11-14 22:13:20.123"), ("to_timestamp_ntz(0)::varchar", "TS:1970-01-01 00:00:00"),
+           ("to_timestamp(1700000000)::date", "d2023-11-14"), ("to_timestamp(86399)::date", "d1970-01-01"), ("to_timestamp(1700000000)::time", "h22:13:20"), ("to_timestamp_ntz(1700000000, 0)::time", "h22:13:20"),
+           ("to_timestamp(1700000000)::timestamp", "t2023-11-14 22:13:20"), ("to_timestamp('2023-01-05 10:00:00')::varchar", "TS:2023-01-05 10:00:00"), ("to_timestamp('2023-01-05 10:00:00')::date", "d2023-01-05"),
+           ("dateadd(day, 1, '2023-01-31'::date)::varchar", "S2023-02-01"), ("dateadd(hour, 1, '2023-01-31 10:00:00')::time", "h11:00:00"), ("dateadd(day, 1, '2023-01-31 10:00:00')::date", "d2023-02-01"),
+           ("to_date('2023-01-05')::varchar", "S2023-01-05"), ("to_date('2023-01-05')::timestamp", "t2023-01-05 00:00:00"), ("to_number('12.5', 10, 1)::varchar", "S12.5"), ("to_number('12.5')::int", "I13"),
+           ("regexp_substr('a12b', '[0-9]+')::int", "I12"), ("regexp_replace('1a2', 'a', '')::int", "I12"), ("datediff(day, '2023-01-01', '2023-01-03')::varchar", "S2"),
+           ("length(to_timestamp(1700000000)::varchar)", "I19"), ("to_timestamp(1700000000)::varchar || 'Z'", "TS:2023-11-14 22:13:20Z"), ("upper(to_timestamp(0)::varchar)", "TS:1970-01-01 00:00:00")]
+    for x, want in opc:
+        cases.append({"tag": "operand-of-cast", "task": ("expr", (x, CONTEXTS)), "line": None, "x": x, "judge": ("fixed", want, None, None)})
+
+    # ---- DATEDIFF / DATEADD: operand kinds × parts ---------------------------------------------------------------------------------------------
+    kinds = {"litdate": lambda d, t: (f"'{d}'", dt.datetime.fromisoformat(d)), "litts": lambda d, t: (f"'{d} {t}'", dt.datetime.fromisoformat(f"{d} {t}")),
+             "castdate": lambda d, t: (f"'{d}'::date", dt.date.fromisoformat(d)), "castdate2": lambda d, t: (f"cast('{d} {t}' as date)", dt.date.fromisoformat(d)),
+             "castts": lambda d, t: (f"'{d} {t}'::timestamp", dt.datetime.fromisoformat(f"{d} {t}")), "todate": lambda d, t: (f"to_date('{d}')", dt.date.fromisoformat(d))}
+    dd_pairs = [("2023-02-28", "23:59:30", "2023-03-01", "10:30:00"), ("2023-03-01", "00:00:01", "2023-02-28", "23:00:00"), ("2024-02-29", "12:00:00", "2024-02-29", "12:59:59"),
+                ("2022-12-31", "23:59:59", "2023-01-01", "00:00:00"), ("2023-06-15", "08:15:00", "2023-06-15", "08:15:00")]
+    combos_dd = [(k1, k2, u, pr) for k1 in kinds for k2 in kinds for u in ("hour", "minute", "second", "day", "month", "year") for pr in dd_pairs]
+    rnd.shuffle(combos_dd)
+    fixed_dd = [("castdate", "litts", "hour", dd_pairs[0]), ("litts", "castdate", "minute", dd_pairs[0]), ("litdate", "litts", "hour", dd_pairs[0]), ("castts", "castdate", "second", dd_pairs[1])]
+    for k1, k2, u, (d1, t1, d2, t2) in fixed_dd + combos_dd[: (150 if quick else 1500)]:
+        (s1, v1), (s2, v2) = kinds[k1](d1, t1), kinds[k2](d2, t2)
+        x = f"datediff({u}, {s1}, {s2})"
+        cases.append({"tag": f"datediff:kinds:{k1}:{k2}", "task": ("expr", (x, ctx_pick(rnd, quick, k=1))), "line": None, "x": x, "judge": ("fixed", f"I{datediff_doc(u, v1, v2)}", None, None)})
+    for u in ("hour", "minute", "day", "month"):
+        for which in ("d", "ts"):
+            for k2 in ("litts", "castdate", "castts"):
+                d1, t1, d2, t2 = dd_pairs[0]
+                s2, v2 = kinds[k2](d2, t2)
+                v1 = dt.date.fromisoformat(d1) if which == "d" else dt.datetime.fromisoformat(f"{d1} 10:00:00")
+                x = f"datediff({u}, {which}, {s2})"
+                cases.append({"tag": "datediff:kinds:column", "task": ("datecol", (d1, x)), "line": None, "x": x, "judge": ("fixed", f"I{datediff_doc(u, v1, v2)}", None, None)})
+
     # ---- one-parameter NUMBER(p) / DECIMAL(p) / NUMERIC(p): scale 0, precision p (values of p and p+1 digits) -------------
     for p_ in (1, 2, 5, 9, 10, 18, 19, 37):
         for digits in (p_, p_ + 1):
@@ -594,6 +630,15 @@ def build(chk):
                 x = f"{fn}({quote(rnd, s)}" + (f", {ln})" if ln is not None else ")")
                 cases.append({"tag": f"sha2:{fn}", "task": ("expr", (x, ctx_pick(rnd, quick, k=1))), "line": f"rewrite\tsha2\t{fn}\t{'-' if ln is None else ln}", "x": x,
                               "judge": ("sha2", s, ln)})
+    for fn in ("sha2", "sha2_hex", "sha2_binary"):
+        for size in ("-256", "0", "-1", "255", "1024", "-224", "256 - 512"):
+            x = f"{fn}('abc', {size})"
+            if fn == "sha2" and not size.isdigit():
+                # sqlglot's own SHA2 node with a size that is not a bare number literal: the 256-bit digest is answered
+                cases.append({"tag": "sha2:invalid-size", "task": ("expr", (x, ["select", "where"])), "line": None, "x": x,
+                              "judge": ("fixed", "REJECTED", "S" + hashlib.sha256(b"abc").hexdigest(), "C10/sha2-nonliteral-size-answered")})
+            else:
+                cases.append({"tag": "sha2:invalid-size", "task": ("expr", (x, ["select", "where"])), "line": None, "x": x, "judge": ("rejected",)})
     cases.append({"tag": "sha2:null", "task": ("expr", ("sha2(null)", ["select"])), "line": None, "x": "sha2(null)", "judge": ("fixed", "N", None, None)})
 
     # ---- TRIM ----------------------------------------------------------------------------------------
@@ -846,6 +891,12 @@ def described_type(case, rep, spec):
 
 
 def matches(want: str, real: str) -> bool:
+    if want.startswith("TS:"):
+        # the text of a TIMESTAMP_NTZ: the wall-clock value, an optional all-zero fraction, NO time zone suffix
+        body, tail = want[3:], ""
+        if body.endswith("Z"):
+            body, tail = body[:-1], "Z"
+        return re.fullmatch("S" + re.escape(body) + r"(\.0+|0*)" + re.escape(tail), real) is not None
     if want == "REJECTED":
         return real in REJECTED
     if want.startswith("REJECTED_OR:"):
@@ -875,6 +926,8 @@ def judge(chk, case, real, rep):
                                   f"the documented result type is {want_desc[5:]}", dict(cinfo, context=ctx),
                                   broken=f"C10 result type ({tag.split(':')[0]}: C10_decimal_type/C10_decimal_description/C10_to_timestamp_type)")
                 continue
+            if ctx == "insert_select" and spec.startswith("TS:") and "||" not in case["x"] and "upper" not in case["x"]:
+                pass
             chk.case((case["x"], ctx), nontrivial=spec not in ("N", "REJECTED") and not spec.startswith("REJECTED_OR:"))
             chk.count(f"{tag.split(':')[0]}:{ctx}")
             c = dict(cinfo, context=ctx)
